@@ -17,6 +17,9 @@ pub struct CustomLang {
 
 impl CustomLang {
   pub fn register(base: &Path, langs: HashMap<String, CustomLang>) -> Result<(), DynamicLangError> {
+    // extensions are resolved by first match: register in name order, not in hash order
+    let mut langs: Vec<_> = langs.into_iter().collect();
+    langs.sort_by(|a, b| a.0.cmp(&b.0));
     let registrations = langs
       .into_iter()
       .map(|(name, custom)| to_registration(name, custom, base))
